@@ -63,7 +63,9 @@ static spif_obj_t part_of(spif_obj_t v) {
     return v;
 }
 static int ident(spif_obj_t o) { int h; for (h = 1; h <= NH; h++) if (created[h] && !deleted[h] && Hd[h] == o) return h; return 0; }
-static void mkname(int h, char *b) { sprintf(b, "%d", VAL[h]); }
+/* value 0 is the EMPTY text (an object that is "" but owns a buffer), value n > 0 the decimal text of n */
+static void mkname(int h, char *b) { if (VAL[h] == 0) b[0] = 0; else sprintf(b, "%d", VAL[h]); }
+static int isval(int v) { int h; for (h = 1; h <= NH; h++) if (VAL[h] == v) return 1; return 0; }
 /* the object `r` came back from the container where the script named handle h: make h name it */
 static const char *relabel(int h, spif_obj_t r) {
     int h2 = ident(r); spif_obj_t t;
@@ -86,15 +88,15 @@ static const char *touch_all(void) {
     }
     for (i = 0; i < npairs; i++) {
         spif_objpair_t p = SPIF_OBJPAIR(pairs[i]);
-        if (hid(p->key) < 1 || hid(p->key) > NH || hid(p->value) < 1 || hid(p->value) > NH) return "removed_pair_unreadable";
+        if (!isval(hid(p->key)) || !isval(hid(p->value))) return "removed_pair_unreadable";
     }
     for (i = 0; i < nlists; i++) {
         long n = SPIF_LIST_COUNT(lists[i]), j;
         for (j = 0; j < n; j++) {
             spif_obj_t e = SPIF_LIST_GET(lists[i], (spif_listidx_t) j);
             if (SPIF_OBJ_ISNULL(e)) return "listing_has_NULL_entry";
-            if (SPIF_OBJ_IS_OBJPAIR(e)) { if (hid(SPIF_OBJPAIR(e)->key) < 1) return "listing_pair_unreadable"; }
-            else if (hid(e) < 1) return "listing_entry_unreadable";
+            if (SPIF_OBJ_IS_OBJPAIR(e)) { if (!isval(hid(SPIF_OBJPAIR(e)->key))) return "listing_pair_unreadable"; }
+            else if (!isval(hid(e))) return "listing_entry_unreadable";
         }
     }
     return NULL;
